@@ -157,7 +157,7 @@ def fn_spec(name, f, cuts=(), calls=True, scalar=True, rename=None):
     return Spec(name, [(n, tuple(s)) for n, s in ins], build, cuts=cuts, calls=calls, scalar=scalar)
 
 
-def lazy_fn_spec(name, thunk, cuts=(), calls=True, scalar=True, only=(), selects=False):
+def lazy_fn_spec(name, thunk, cuts=(), calls=True, scalar=True, only=(), selects=False, nested=False):
     """like fn_spec, but the casadi.Function is (re)built by `thunk` INSIDE the extraction, so that the
     SERIES calls it makes stay calls (patched tables are active while `build` runs)"""
     f0 = thunk()
@@ -166,7 +166,50 @@ def lazy_fn_spec(name, thunk, cuts=(), calls=True, scalar=True, only=(), selects
     def build(*args):
         f = thunk()
         return list(zip(outs, f.call(list(args))))
-    return Spec(name, ins, build, cuts=cuts, calls=calls, scalar=scalar, only=only, selects=selects)
+    return Spec(name, ins, build, cuts=cuts, calls=calls, scalar=scalar, only=only, selects=selects, nested=nested)
+
+
+def probed(name, maker, probes, cuts=(), selects=False, only=(), nested=True):
+    """Variant of a function with some of its INTERMEDIATE values exposed as extra outputs (and usually declared as cut
+    points): while the REAL body runs, each probe (owner, attr, what, index, outname) wraps the callable `owner.attr`; the
+    wrapper calls the real one and remembers, for its `index`-th call, the argument (what = "arg") or `what(result)`.
+    Nothing of the body is re-implemented: the extra outputs are the very SX expressions the library built, and every
+    statement about the original outputs goes through the definitional `_cut_eq` lemmas."""
+    import core
+    def thunk():
+        logs = {}
+        saved = []
+        def wrap(owner, attr, key):
+            real = getattr(owner, attr)
+            had = attr in getattr(owner, "__dict__", {})
+            def w(*a, **k):
+                res = real(*a, **k)
+                logs.setdefault(key, []).append((a, res))
+                return res
+            setattr(owner, attr, w)
+            saved.append((owner, attr, real, had))
+        try:
+            for (owner, attr, what, index, outname) in probes:
+                if (id(owner), attr) not in [(id(o), a) for (o, a, _, _) in saved]:
+                    wrap(owner, attr, (id(owner), attr))
+            with core.patched_function():
+                f = maker()
+                extra, names = [], []
+                for (owner, attr, what, index, outname) in probes:
+                    calls = logs.get((id(owner), attr), [])
+                    assert len(calls) > index, "probe %s.%s: call %d not made" % (owner, attr, index)
+                    a, res = calls[index]
+                    val = ca.SX(a[0]) if what == "arg" else ca.SX(what(res))
+                    extra.append(val); names.append(outname)
+                g = ca.Function(f.name() + "_probed", f._ins, f._outs + extra, f._in_names, f._out_names + names)
+        finally:
+            for (owner, attr, real, had) in reversed(saved):
+                if had:
+                    setattr(owner, attr, real)
+                else:
+                    delattr(owner, attr)
+        return g
+    return lazy_fn_spec(name, thunk, cuts=cuts, selects=selects, only=only, nested=nested)
 
 
 def rdd2_alloc_specs():
@@ -242,6 +285,34 @@ def ref_specs():
     S.append(lazy_fn_spec("mr_ref_traj.mr_ref_traj", lambda: mr.derive_mr_ref_traj()["mr_ref_traj"],
                           cuts=("omega_eb_b", "omega_dot_eb_b")))
     S.append(lazy_fn_spec("bezier.eulerB321_to_quat", lambda: bz.derive_eulerB321_to_quat()["eulerB321_to_quat"]))
+    return S
+
+
+def refp_specs():
+    """attitude set-point producers with intermediate values exposed (C14 frame theorems)"""
+    import cyecca.models.rdd2 as m
+    import cyecca.models.rdd2_loglinear as ml
+    import cyecca.models.bezier as bz
+    import cyecca.models.mr_ref_traj as mr
+    S = []
+    # the same controllers with the demanded force T, the heading angle yt and the frame Rd handed to SO3Quat.from_Matrix
+    # exposed as extra outputs / cut points (C14 frame theorems)
+    import cyecca.lie.group_so3 as g3
+    yaw = lambda e: e.param[0]
+    for nm, mk in (("rdd2.position_control_p", lambda: m.derive_position_control()["position_control"]),
+                   ("loglinear.se23_position_control_p", lambda: ml.derive_outerloop_control()["se23_position_control"])):
+        S.append(probed(nm, mk, [(ca, "norm_2", "arg", 1, "T"), (g3.SO3EulerB321, "from_Quat", yaw, 0, "yt"),
+                                 (ca, "cross", "arg", 0, "zB"), (ca, "cross", "arg", 1, "yB"),
+                                 (g3.SO3Quat, "from_Matrix", "arg", 0, "Rd")],
+                        cuts=("T", "yt", "yB", "Rd"), only=("nT", "qr_wb", "T", "yt", "zB", "yB", "Rd")))
+    # flatness references: thrust vector, body axes and the frame exposed
+    S.append(probed("bezier.f_ref_p", lambda: bz.derive_ref()["f_ref"],
+                    [(ca, "norm_2", "arg", 0, "thrust"), (ca, "cross", "arg", 0, "zb"), (ca, "cross", "arg", 1, "yb"),
+                     (g3.SO3Dcm, "from_Matrix", "arg", 0, "C_be")],
+                    cuts=("thrust", "yb", "C_be"), only=("quat", "thrust", "zb", "yb", "C_be", "T", "omega_eb_b")))
+    S.append(probed("mr_ref_traj.mr_ref_traj_p", lambda: mr.derive_mr_ref_traj()["mr_ref_traj"],
+                    [(ca, "norm_2", "arg", 0, "thrust"), (ca, "cross", "arg", 0, "zb"), (ca, "cross", "arg", 1, "yb")],
+                    cuts=("thrust", "yb"), only=("thrust", "zb", "yb", "C_be", "T", "omega_eb_b")))
     return S
 
 
@@ -342,6 +413,7 @@ MODULES = {
     "Ins": (ins_specs, ("Series",)),
     "Ctrl": (ctrl_specs, ("Series",)),
     "Ref": (ref_specs, ("Series",)),
+    "RefP": (refp_specs, ("Series",)),
     "Util": (util_specs, ("Series",)),
     "Est": (est_specs, ("Series",)),
 }
